@@ -51,7 +51,7 @@ def tree_hash():
     files = []
     for root, _d, fs in os.walk(os.path.join(REPO, "Lib")):
         for f in fs:
-            if f.endswith((".c", ".h")):
+            if f.endswith((".c", ".h", ".in")):
                 files.append(os.path.join(root, f))
     for f in sorted(files):
         h.update(os.path.relpath(f, REPO).encode())
@@ -66,8 +66,27 @@ def _run(cmd):
         raise RuntimeError("build failed: %s\n%s" % (" ".join(cmd), p.stdout))
 
 
+def _gen_headers(d):
+    """cmn.h / ctx.h are produced by CMake's configure_file and are not tracked: when the tree has none (a fresh
+    worktree), derive them from the .in templates into the build directory (searched last)"""
+    import re
+    for sub in ("module", os.path.join("public", "module")):
+        g = os.path.join(d, "gen", sub)
+        os.makedirs(g, exist_ok=True)
+        for name in ("cmn.h", "ctx.h"):
+            src = os.path.join(REPO, "Lib/core/public/module", name + ".in")
+            if os.path.exists(src):
+                with open(src) as fh:
+                    txt = re.sub(r"@[A-Za-z_]+@", "", fh.read())
+                with open(os.path.join(g, name), "w") as fh:
+                    fh.write(txt)
+    return os.path.join(d, "gen")
+
+
 def _flags(variant):
-    return COMMON + VARIANTS[variant] + ["-I" + os.path.join(REPO, i) for i in INCLUDES]
+    d = os.path.join(BUILD_ROOT, tree_hash(), variant)
+    os.makedirs(d, exist_ok=True)
+    return COMMON + VARIANTS[variant] + ["-I" + os.path.join(REPO, i) for i in INCLUDES] + ["-I" + _gen_headers(d)]
 
 
 def _prune(keep):
